@@ -6,11 +6,11 @@ Open Scope string_scope.
 Open Scope list_scope.
 
 (* every substitution round preserves the meaning, so each entry of the symbolic right-hand side has
-   the value of the corresponding derivative's own expression, with every intermediate standing for
-   its definition - in any carrier, for any environment consistent with the definitions *)
+   the value of the corresponding derivative's own expression, with every intermediate and every state
+   derivative an expression reads standing for its definition - in any carrier, for any environment consistent with the definitions *)
 Theorem C20_symbolic_rhs_has_the_meaning_of_the_derivatives :
   forall (T : Type) (N : NumOps T) (o : ode) (rho : string -> T),
-    (forall x a, find (fun a => String.eqb (a_name a) x) (o_inters o) = Some a ->
+    (forall x a, find (fun a => String.eqb (a_name a) x) (assigns o) = Some a ->
                  rho x = eval N rho (a_expr a)) ->
     forall max_tries es ord,
       sorted_names o false = Some ord ->
@@ -19,9 +19,10 @@ Theorem C20_symbolic_rhs_has_the_meaning_of_the_derivatives :
 Proof. exact @rhs_matrix_meaning. Qed.
 Print Assumptions C20_symbolic_rhs_has_the_meaning_of_the_derivatives.
 
-(* whenever a right-hand side is produced, every intermediate has been expanded *)
+(* whenever a right-hand side is produced, every defined name - intermediate or state derivative read by an
+   expression - has been expanded: the entries are functions of states, parameters and time alone *)
 Theorem C20_symbolic_rhs_is_fully_expanded :
-  forall o max_tries es, rhs_matrix o max_tries = Some es -> existsb (mentions_inter o) es = false.
+  forall o max_tries es, rhs_matrix o max_tries = Some es -> existsb (mentions_assigned o) es = false.
 Proof. exact rhs_matrix_fully_expanded. Qed.
 Print Assumptions C20_symbolic_rhs_is_fully_expanded.
 
@@ -83,3 +84,17 @@ Example C20_depth_beyond_twenty :
   /\ (exists es, rhs_matrix (chain_ode 40) (default_tries (chain_ode 40)) = Some es)
   /\ (exists es, rhs_matrix (chain_ode 40) 2 = Some es).
 Proof. vm_compute. repeat split; eexists; reflexivity. Qed.
+
+(* an intermediate that reads a state derivative (r = 2*dx_dt; dy_dt = r + y): the right-hand side of y is expanded
+   down to states - (x*3)*2 + y - and its Jacobian row sees the dependence on x through dx_dt *)
+Definition mkd n v := {| d_name := n; d_value := lit v; d_comps := [""]; d_unit := None; d_desc := None |}.
+Definition mka n e := {| a_name := n; a_expr := e; a_comps := [""]; a_unit := None; a_comment := None |}.
+Definition deriv_reader : ode :=
+  {| o_states := [mkd "x" 1; mkd "y" 2]; o_params := [];
+     o_inters := [mka "r" (EMul (EVar "dx_dt") (lit 2))];
+     o_derivs := [mka "dx_dt" (EMul (EVar "x") (lit 3)); mka "dy_dt" (EAdd (EVar "r") (EVar "y"))] |}.
+
+Example C20_a_derivative_read_by_an_intermediate_is_expanded :
+  rhs_matrix deriv_reader (default_tries deriv_reader)
+  = Some [EMul (EVar "x") (lit 3); EAdd (EMul (EMul (EVar "x") (lit 3)) (lit 2)) (EVar "y")].
+Proof. vm_compute. reflexivity. Qed.
